@@ -12,6 +12,8 @@ RUSTFLAGS="--cfg rustaudio_dasp_verif" CARGO_TARGET_DIR="$PWD/target" cargo buil
 test -x target/debug/c06
 cd ../harness_nostd
 RUSTFLAGS="--cfg rustaudio_dasp_verif" CARGO_TARGET_DIR="$PWD/target" cargo build --offline --quiet --bins 2>&1 | grep -E "^error" -A8 | tail -20 || true
+cd ../harness_rms_only
+RUSTFLAGS="--cfg rustaudio_dasp_verif" CARGO_TARGET_DIR="$PWD/target" cargo build --offline --quiet --bin c11r 2>&1 | grep -E "^error" -A8 | tail -20 || true
 cd ../harness_nightly_nostd
 RUSTFLAGS="--cfg rustaudio_dasp_verif" CARGO_TARGET_DIR="$PWD/target" cargo +nightly build --offline --quiet --bins 2>&1 | grep -E "^error" -A8 | tail -20 || true
 echo "setup ok"
